@@ -22,7 +22,7 @@ struct CountingStorage {
 CountingStorage g_storage;
 
 struct DoneMark { int id; ~DoneMark() { dsim::cell_set(BODY_DONE + id, 1); } };
-struct Node { int id; int ty; int start; int compl_; int who_resolves; std::vector<int> kids; bool counting_frame; bool as_value = false; };
+struct Node { int id; int ty; int start; int compl_; int who_resolves; std::vector<int> kids; bool counting_frame; bool as_value = false; bool inline_join = false; };
 struct World {
     std::vector<Node> nodes;
     cocls::promise<void> inner[MAXN];         // promises of the futures on which suspended bodies wait
@@ -148,7 +148,11 @@ template <typename T> cocls::async<void> run_child_t(int id) {
         auto co = body_owned<T>(id, vs::Counted(id), std::move(party));     // from here on the frame holds the only reference
         if (!co.start(p)) dsim::fail("C04.start_promise", "start(promise) refused a fresh promise");
         maybe_resolve_here(id); break; }
-    default: {   // S_JOIN: blocking join() on a helper thread (join() is not for coroutines); such children are leaves that complete at once
+    default: if (nd.inline_join) {   // S_JOIN from inside the parent coroutine: legal for a child that completes at once - start() runs it nested, join() finds the result ready and never blocks
+            try { if constexpr (std::is_void_v<T>) { make<T>(id).join(); delivered(id, 1, 0); } else { auto r = make<T>(id).join(); delivered(id, 1, payload(r)); } }
+            catch (const vs::TestError &e) { delivered(id, 2, e.code); }
+            break;
+        } else {   // S_JOIN: blocking join() on a helper thread (join() is not for coroutines); such children are leaves that complete at once
         std::thread t([id] {
             try { if constexpr (std::is_void_v<T>) { make<T>(id).join(); delivered(id, 1, 0); } else { auto r = make<T>(id).join(); delivered(id, 1, payload(r)); } }
             catch (const vs::TestError &e) { delivered(id, 2, e.code); }
@@ -172,7 +176,7 @@ void build(World &w, int parent, int depth, int &budget) {
         if (n.ty == 3) { w.objs[n.id] = std::make_unique<vs::Counted>(node_value(n.id)); if (n.start == S_START || n.start == S_FUTURE_CTOR) n.as_value = dsim::flip(); }
         w.nodes.push_back(n);
         if (parent >= 0) w.nodes[parent].kids.push_back(n.id);
-        if (n.start == S_JOIN) { w.nodes.back().compl_ = n.compl_ & 1; continue; }
+        if (n.start == S_JOIN) { w.nodes.back().compl_ = n.compl_ & 1; w.nodes.back().inline_join = dsim::flip(); continue; }
         if (n.start != S_NEVER && n.start != S_CLAIMED_PROMISE) build(w, n.id, depth + 1, budget);
     }
 }
@@ -231,7 +235,7 @@ void dsim_scenario() {
     w.nodes.push_back(root);
     build(w, 0, 0, budget);
     dsim::plan_note("tree:");
-    for (auto &n : w.nodes) if (n.id) dsim::plan_note(" %d{T%d s%d c%d r%d%s%s}", n.id, n.ty, n.start, n.compl_, n.who_resolves, n.counting_frame ? " cf" : "", n.as_value ? " as-value" : "");
+    for (auto &n : w.nodes) if (n.id) dsim::plan_note(" %d{T%d s%d c%d r%d%s%s}", n.id, n.ty, n.start, n.compl_, n.who_resolves, n.counting_frame ? " cf" : "", n.as_value ? " as-value" : ""); 
     {
         cocls::thread_pool pool(1 + dsim::choose(2)); w.pool = &pool;
         // resolver thread: completes suspended bodies whose starter does not do it
